@@ -251,6 +251,7 @@ def make_interp(p):
     it.invariants = INVARIANTS
     it.contracts = CONTRACTS
     it.models.update(EXTRA_MODELS)
+    it.models.update(getattr(p.cls, 'models', {}))      # models that apply to this proof only
     it.modular = set(p.modular)
     it.unroll_limit = p.unroll_limit
     _install_spec_models(it)
